@@ -185,13 +185,15 @@ def isBody : Step → Bool
   | .body .. => true
   | _ => false
 
-/-- The timer function of subscribeToWfState. -/
+/-- The timer function of subscribeToWfState: GO_ERROR (forced if refused), then STOP to every
+    task whose own state is RUNNING (`stopped` records the commands). -/
 def timerStep (s : Sys) : Sys :=
   let g := tryTransition s.env s.hooks .GO_ERROR true false
   let env' := if g.2.2.isOk then g.1 else if g.1.st = .ERROR then g.1 else { g.1 with st := .ERROR }
-  let targets := ((leaves s.f).filter (taskRunning s)).map (·.1)
-  let s1 := { s with env := env', w := .gone, log := s.log ++ g.2.1, stopped := s.stopped ++ targets }
-  setLeaves s1 targets .CONFIGURED true
+  let targets := (leaves s.f).filter (taskRunning s)
+  let s1 := { s with env := env', w := .gone, log := s.log ++ g.2.1, stopped := s.stopped ++ targets.map (·.1) }
+  -- only a task that is still there (role ACTIVE) answers the STOP
+  setLeaves s1 ((targets.filter (fun l => l.2.2 == TStatus.ACTIVE)).map (·.1)) .CONFIGURED true
 
 /-- `env.TryTransition(NewStopActivityTransition)` from handleDeviceEvent: STOP goes to the
     tasks whose role is ACTIVE; if the body ran and succeeded they all report CONFIGURED. -/
